@@ -425,7 +425,10 @@ func (c *c19) compile(j *job, cwd, file, outArg, outAbs string) *obs {
 		args = append(args, "-r")
 	}
 	args = append(args, j.Set.Extra...)
-	args = append(args, "-out", outArg, file)
+	if outArg != "" { // "" = no -out: the compiler's default output directory, relative to the cwd
+		args = append(args, "-out", outArg)
+	}
+	args = append(args, file)
 	var r *emit.Result
 	for attempt := 0; attempt < 2; attempt++ {
 		r = emit.Run(c.bin, cwd, 120*time.Second, args...)
@@ -541,8 +544,26 @@ func otherCompilation(j *job, tgts []target) (target, optSet) {
 // runDirty compiles X into the -out directory first and then the job's own
 // compilation Y into the same directory; returns Y's observation (nil when X
 // was rejected: nothing to observe).
-func (c *c19) runDirty(j *job, kind, srcA, outA, rootFile string) *obs {
+func (c *c19) runDirty(j *job, kind, srcA, outA, rootFile string, ref *obs, refKeep string) *obs {
 	os.RemoveAll(outA)
+	if kind == "out-holds-handwritten-siblings" {
+		// every directory the compilation emits into already holds a file that
+		// is NOT generated: hand-written code next to generated code is ordinary
+		// practice.  For Go the sibling belongs to the emitted package and
+		// imports non-standard packages named like standard ones (goimports
+		// consults the imports of sibling files); it need not compile.
+		dirs := map[string]bool{}
+		for rel := range ref.Tree {
+			dirs[filepath.Dir(filepath.FromSlash(rel))] = true
+		}
+		for d := range dirs {
+			dst := filepath.Join(outA, d)
+			os.MkdirAll(dst, 0o755)
+			name, text := handwrittenSibling(j.Tgt.Name, filepath.Join(refKeep, d))
+			os.WriteFile(filepath.Join(dst, name), []byte(text), 0o644)
+		}
+		return c.compile(j, srcA, rootFile, "out", outA)
+	}
 	xj := *j
 	rootPath := filepath.Join(srcA, rootFile)
 	switch kind {
@@ -562,6 +583,60 @@ func (c *c19) runDirty(j *job, kind, srcA, outA, rootFile string) *obs {
 		return nil
 	}
 	return c.compile(j, srcA, rootFile, "out", outA)
+}
+
+var rePackageClause = regexp.MustCompile(`(?m)^package\s+(\w+)`)
+
+// handwrittenSibling returns name and text of a non-generated file for a
+// directory of emitted code (generatedDir = the same directory in the
+// reference output, read to learn the Go package name).
+func handwrittenSibling(tgt, generatedDir string) (string, string) {
+	switch {
+	case tgt == "go":
+		pkg := "handwritten"
+		ents, _ := os.ReadDir(generatedDir)
+		for _, e := range ents {
+			if strings.HasSuffix(e.Name(), ".go") {
+				b, _ := os.ReadFile(filepath.Join(generatedDir, e.Name()))
+				if m := rePackageClause.FindSubmatch(b); m != nil {
+					pkg = string(m[1])
+					break
+				}
+			}
+		}
+		return "zz_handwritten.go", "package " + pkg + `
+
+import (
+	"github.com/pkg/errors"
+	"example.com/fake/sql/driver"
+	fmt "example.com/fake/fmt"
+	"example.com/fake/bytes"
+	"example.com/fake/context"
+	thrift "example.com/fake/thrift"
+	frugal "example.com/fake/frugal"
+)
+
+// hand-written helpers living next to the generated code
+var ErrHandwritten = errors.New("handwritten")
+
+func handwrittenValue() (driver.Value, error) {
+	var b bytes.Buffer
+	_ = context.Background()
+	_ = thrift.NewTMemoryBuffer()
+	_ = frugal.NewFContext("")
+	return fmt.Sprint(b), errors.Wrap(ErrHandwritten, "x")
+}
+`
+	case strings.HasPrefix(tgt, "py"):
+		return "zz_handwritten.py", "import errors\nfrom . import ttypes\n\ndef handwritten():\n    return errors\n"
+	case tgt == "java":
+		return "ZzHandwritten.java", "public class ZzHandwritten { }\n"
+	case tgt == "dart":
+		return "zz_handwritten.dart", "library zz_handwritten;\n"
+	case tgt == "html":
+		return "zz_handwritten.html", "<html><body>hand written</body></html>\n"
+	}
+	return "zz_handwritten.txt", "hand written\n"
 }
 
 func clip(s string, n int) string {
@@ -725,7 +800,7 @@ func (c *c19) runJob(j *job) {
 	// -out directories that already hold the output of another compilation
 	if ref.Exit == 0 {
 		for _, kind := range j.Dirty {
-			o := c.runDirty(j, kind, srcA, outA, rootFile)
+			o := c.runDirty(j, kind, srcA, outA, rootFile, ref, refKeep)
 			if o == nil {
 				continue
 			}
@@ -871,7 +946,7 @@ func (c *c19) plainAlsoDiffers(j *job) bool {
 	return false
 }
 
-var dirtyKinds = []string{"out-holds-other-option-set", "out-holds-revision-with-more-declarations", "out-holds-revision-with-fewer-declarations"}
+var dirtyKinds = []string{"out-holds-other-option-set", "out-holds-revision-with-more-declarations", "out-holds-revision-with-fewer-declarations", "out-holds-handwritten-siblings"}
 
 // revisions renders two neighbours of the program's root file: one with a
 // struct, a service and (in .frugal files) a scope added, one with the last
@@ -1007,7 +1082,7 @@ func runC19(tier string) int {
 				if t.Name == "html" {
 					altSrc = alt
 				}
-				dirty := []string{dirtyKinds[0], dirtyKinds[1+(i+ti+si)%2]}
+				dirty := []string{dirtyKinds[0], dirtyKinds[1+(i+ti+si)%2], dirtyKinds[3]}
 				if run.Thorough() {
 					dirty = dirtyKinds
 					if kreps != reps {
